@@ -93,6 +93,11 @@ def payloads(rng):
     for n in sizes:
         out.append(b"a" * n)
         out.append(bytes(rng.getrandbits(8) for _ in range(n)) if n <= 70000 else os.urandom(n))
+    # payloads that begin / end with the bytes the frame itself is made of (the flusher newline, NULs as in a length field)
+    for core in (b"", b"abc", b"a" * 2999):
+        for edge in (b"\n", b"\n\n\n", b"\x00", b"\x00\x00\x00\x00\x01"):
+            out.append(core + edge)
+            out.append(edge + core)
     return out
 
 
